@@ -336,6 +336,13 @@ func ruleDynCalls(p *Program, r *Reporter) {
 					}
 					continue
 				}
+				// (4) a table of handler functions kept in a package-level
+				// variable that only the package's initialisation fills, with
+				// functions of the module
+				if g, fns, ok := moduleFuncTable(p, cc.Value); ok {
+					r.OkNT(key, p.Pos(ci.Pos()), fmt.Sprintf("handler table %s: written only while the package is initialised, with %d function(s) of the module", g.Name(), len(fns)))
+					continue
+				}
 				// closure called directly (defer func(){}() etc.)
 				if mc, ok := cc.Value.(*ssa.MakeClosure); ok {
 					if f, ok := mc.Fn.(*ssa.Function); ok && fnPkg(f) != nil && IsLibPath(fnPkg(f).Pkg.Path()) {
@@ -860,8 +867,18 @@ func identityOnly(v ssa.Value, depth int) bool {
 				return false
 			}
 		case *ssa.Call:
-			if b, ok := x.Call.Value.(*ssa.Builtin); !ok || b.Name() != "delete" {
+			if b, ok := x.Call.Value.(*ssa.Builtin); ok && b.Name() == "delete" {
+				continue
+			}
+			// handed to a function of the module that uses it in the same way
+			g := x.Call.StaticCallee()
+			if g == nil || fnPkg(g) == nil || !IsLibPath(fnPkg(g).Pkg.Path()) || len(g.Blocks) == 0 || depth > 2 {
 				return false
+			}
+			for i, arg := range x.Call.Args {
+				if arg == v && (i >= len(g.Params) || !identityOnly(g.Params[i], depth+1)) {
+					return false
+				}
 			}
 		case *ssa.Defer:
 			if b, ok := x.Call.Value.(*ssa.Builtin); !ok || b.Name() != "delete" {
@@ -901,6 +918,15 @@ func identityOnly(v ssa.Value, depth int) bool {
 				}
 			}
 		case *ssa.Store:
+			// put into a list (the argument array of an append): fine when
+			// every element ever read out of a list of that element type is
+			// itself used only for identity
+			if ia, isIA := x.Addr.(*ssa.IndexAddr); isIA && x.Val == v && curProgram != nil && depth <= 2 {
+				if _, isArr := ia.X.(*ssa.Alloc); isArr && listReadsIdentityOnly(curProgram, v.Type(), depth+1) {
+					continue
+				}
+				return false
+			}
 			fa, ok := x.Addr.(*ssa.FieldAddr)
 			if !ok || x.Val != v {
 				return false
@@ -1611,4 +1637,33 @@ func ruleHashKey(p *Program, r *Reporter) {
 			}
 		}
 	}
+}
+
+// listReadsIdentityOnly: every value of the type that the module reads out of
+// a slice or array (an element load) is used for identity only, and no loop
+// hands the elements to anything else.
+func listReadsIdentityOnly(p *Program, t types.Type, depth int) bool {
+	n := 0
+	for _, fn := range p.LibFns {
+		for _, b := range fn.Blocks {
+			for _, ins := range b.Instrs {
+				ld, ok := ins.(*ssa.UnOp)
+				if !ok || ld.Op != token.MUL || !types.Identical(ld.Type(), t) {
+					continue
+				}
+				if _, isIA := ld.X.(*ssa.IndexAddr); !isIA {
+					continue
+				}
+				if al, isAl := ld.X.(*ssa.IndexAddr).X.(*ssa.Alloc); isAl {
+					_ = al
+					continue // the argument array being built
+				}
+				n++
+				if !identityOnly(ld, depth) {
+					return false
+				}
+			}
+		}
+	}
+	return n > 0
 }
